@@ -74,8 +74,8 @@ def list_docs(tier: str) -> Iterator[dict[str, Any]]:
         combos.append((a, ["P"]))
         combos.append((["P"], a))
     if th:
-        # three-item lists: all ordered pairs of the six basic item patterns
-        for a, b in itertools.product(ITEM_PATTERNS[:6], ITEM_PATTERNS[:6]):
+        # three-item lists: all ordered pairs of the first four item patterns (path counts multiply per item)
+        for a, b in itertools.product(ITEM_PATTERNS[:4], ITEM_PATTERNS[:4]):
             combos.append((a, b, ["P"]))
     seen = set()
     for items in combos:
@@ -85,6 +85,8 @@ def list_docs(tier: str) -> Iterator[dict[str, Any]]:
                     extra = any(i in ITEM_PATTERNS[6:] for i in items)
                     if not th and extra and (wrap != "top" or marker != "-"):
                         continue  # the rarer item patterns: one marker, top level only, in the quick tier
+                    if th and wrap == "footnote" and (marker not in ("-", "1.") or len(items) == 3):
+                        continue  # footnote wrap: two markers, two-item lists (sized so the thorough tier ends within the hour)
                     key = f"list/{wrap}/{marker}/{'loose' if loose else 'tight'}/" + "|".join("".join(i) for i in items)
                     if key in seen:
                         continue
